@@ -26,6 +26,10 @@ def main():
     if not patch.exists() or not demo.exists():
         print("missing patch or demo")
         return 2
+    conf = pathlib.Path("/tmp/seedconf/%s.json" % name)
+    if "--use-confirm" in sys.argv and conf.exists():
+        res = json.load(open(conf))
+        return file_it(res, patch, demo, meta, name, suite)
     wt = tempfile.mkdtemp(prefix="seedchk_", dir="/tmp")
     os.rmdir(wt)
     r = sh("git -C /repo worktree add -q --detach %s HEAD" % wt)
@@ -34,7 +38,7 @@ def main():
         return 2
     res = {}
     try:
-        env = dict(os.environ, PYTHONPATH=wt)
+        env = dict(os.environ, PYTHONPATH=wt, OMP_NUM_THREADS="1", OPENBLAS_NUM_THREADS="1", MKL_NUM_THREADS="1", NUMBA_NUM_THREADS="1")
         clean = sh("cd %s && timeout 600 /venv/bin/python %s" % (wt, demo), env=env)
         res["demo_on_clean_tree"] = clean.returncode
         ap = sh("git -C %s apply %s" % (wt, patch))
@@ -48,7 +52,7 @@ def main():
         res["imports"] = imp.returncode == 0
         if suite:
             jx = pathlib.Path(wt) / "junit.xml"
-            sh("cd %s && /venv/bin/python -m pytest -q -p no:cacheprovider --timeout=900 --continue-on-collection-errors -n 8 --junitxml=%s" % (wt, jx), env=env)
+            sh("cd %s && /venv/bin/python -m pytest -q -p no:cacheprovider --timeout=900 --continue-on-collection-errors -n 4 --junitxml=%s" % (wt, jx), env=env)
             base = set(json.load(open("/root/.vp/BASELINE.json"))["stable_pass"])
             got = {}
             for tc in ET.parse(jx).iter("testcase"):
@@ -58,6 +62,15 @@ def main():
     finally:
         sh("git -C /repo worktree remove --force %s" % wt)
         shutil.rmtree(wt, ignore_errors=True)
+    if "--confirm-only" in sys.argv:
+        conf.parent.mkdir(exist_ok=True)
+        conf.write_text(json.dumps(res, indent=1))
+        print(name, json.dumps(res)[:400])
+        return 0
+    return file_it(res, patch, demo, meta, name, suite)
+
+
+def file_it(res, patch, demo, meta, name, suite):
     ok = res.get("demo_on_clean_tree") == 0 and res.get("demo_with_patch") not in (0, None) and res.get("imports")
     print(json.dumps(res, indent=1))
     if not ok:
